@@ -27,6 +27,18 @@ type c16Path struct {
 	script func(sc *wire.Script)
 	// reachesBackend: the backend sees the final request
 	reachesBackend bool
+	// overwrites: the chain has a plugin that the operator configured to set the request-ID
+	// header itself (on the request and on the response). What the client supplied is then
+	// not what travels, by configuration; what remains of the statement is that the header is
+	// there and that backend and client see the same value
+	overwrites bool
+}
+
+func c16ReqIDName(cfg *config.Config) string {
+	if n := strings.TrimSpace(cfg.Logging.RequestID.Header); n != "" {
+		return n
+	}
+	return "X-Request-ID"
 }
 
 func c16Get() *wire.Request {
@@ -74,6 +86,16 @@ var c16Paths = []c16Path{
 		rq := c16Get()
 		rq.Header = append(rq.Header, wire.HeaderLine{"Connection", "Upgrade"}, wire.HeaderLine{"Upgrade", "websocket"})
 		return rq
+	}},
+	// another feature that sets the same header: the built-in request-id plugin (always
+	// X-Request-ID) and the headers plugin told to set the configured ID header both ways
+	{name: "request-id-plugin-200", want: 200, reachesBackend: true, overwrites: true, req: c16Get, build: func(be *wire.Backend, cfg *config.Config) {
+		cfg.Plugins = config.PluginsConfig{Enabled: true, Chain: []config.PluginConfig{{Name: "request-id"}}}
+	}},
+	{name: "headers-plugin-sets-id-200", want: 200, reachesBackend: true, overwrites: true, req: c16Get, build: func(be *wire.Backend, cfg *config.Config) {
+		n := c16ReqIDName(cfg)
+		cfg.Plugins = config.PluginsConfig{Enabled: true, Chain: []config.PluginConfig{{Name: "logging"}, {Name: "headers", Config: map[string]interface{}{
+			"set": map[string]interface{}{n: "set-by-the-headers-plugin"}, "request_set": map[string]interface{}{n: "set-by-the-headers-plugin"}}}}}
 	}},
 	{name: "custom-auth-401", want: 401, req: c16Get, build: func(be *wire.Backend, cfg *config.Config) {
 		cfg.Plugins = config.PluginsConfig{Enabled: true, Chain: []config.PluginConfig{{Name: "custom-auth", Config: map[string]interface{}{"apiKey": "k"}}}}
@@ -224,6 +246,16 @@ func TestVerifC16(t *testing.T) {
 									backendVals = seen[0].Header.Values(id.name)
 								}
 								mine := linesOf(id.name)
+								if p.overwrites && id.kind == "request-id" && (p.name != "request-id-plugin-200" || id.name == "X-Request-ID") {
+									if !echo {
+										if id.on && len(got) == 0 {
+											viol(id.kind+"/missing-on-response/"+p.name, fmt.Sprintf("no %s header on the %d response", id.name, resp.Status))
+										} else if len(got) > 0 && (len(backendVals) == 0 || backendVals[0] != got[0]) {
+											viol(id.kind+"/backend-and-client-values-differ", fmt.Sprintf("backend saw %q, client got %q (a plugin sets the header on both sides)", backendVals, got))
+										}
+									}
+									continue
+								}
 								supplied := ""
 								if len(mine) > 0 {
 									supplied = strings.TrimSpace(mine[0])
@@ -284,7 +316,7 @@ func TestVerifC16(t *testing.T) {
 		}
 	}
 	r.AddScenario(vres.Scenario{Name: "id-propagation-product", Engine: "W", Evaluations: evals, Distinct: int64(outs.N()), Outcomes: outs.N(),
-		Rule:  "request_id on/off x trace on/off x 9 header-name sets (default, custom, mixed, padded, underscores, token punctuation, one letter) x 11 response paths x 12 client value shapes (incl. one header only, distinct values, mixed case, delimiter characters) x backend silent / echoing / answering with foreign IDs; distinct = distinct (path, toggles, value shape) classes that produced the expected status",
+		Rule:  "request_id on/off x trace on/off x 9 header-name sets (default, custom, mixed, padded, underscores, token punctuation, one letter) x 13 response paths (two with a plugin that sets the ID header itself) x 12 client value shapes (incl. one header only, distinct values, mixed case, delimiter characters) x backend silent / echoing / answering with foreign IDs; distinct = distinct (path, toggles, value shape) classes that produced the expected status",
 		Bound: "full product, one Helios instance per (toggles, names, path)", Exhaustive: true, Sample: sample,
 		Extra: map[string]interface{}{"wall_s": time.Since(start).Seconds()}})
 }
